@@ -81,6 +81,14 @@ class CFG:
         b0, i0 = frm
         seen = set()
         work = [(b0, i0 + 1, ())]
+        throws0 = getattr(self, 'throws', None)
+        if throws0 and b0 in self.blocks and 0 <= i0 < len(self.blocks[b0]['el']):
+            for tgt, t in throws0.get(self.blocks[b0]['el'][i0], ()):
+                if tgt == self.ABEXIT:
+                    if 'EXIT' in targets:
+                        return [('exception-exit', self.blocks[b0]['el'][i0])]
+                else:
+                    work.append((tgt, 0, (('exception', tgt),)))
         while work:
             b, i, path = work.pop()
             if (b, i) in seen:
@@ -88,6 +96,7 @@ class CFG:
             seen.add((b, i))
             blk = self.blocks[b]
             blocked = False
+            throws = getattr(self, 'throws', None)
             for j in range(i, len(blk['el'])):
                 el = blk['el'][j]
                 if el in targets:
@@ -95,6 +104,14 @@ class CFG:
                 if el in avoid:
                     blocked = True
                     break
+                if throws and el in throws:
+                    # exception edges (EHCFG): control may leave the block here
+                    for tgt, t in throws[el]:
+                        if tgt == self.ABEXIT:
+                            if 'EXIT' in targets:
+                                return list(path) + [('exception-exit', el)]
+                        else:
+                            work.append((tgt, 0, path + (('exception', tgt),)))
             if blocked:
                 continue
             if b == self.exit and 'EXIT' in targets:
